@@ -15,7 +15,7 @@ timeout 1200 cargo test -p ipa-core --lib --offline $EXTRA $FILTER > $M/confirm_
 echo "demo with change: exit $B ($(grep -E '^test result' $M/confirm_demo_mut.log | tail -1))" >> $OUT
 git checkout -q -- . ; git clean -fdq -e mutations -e target
 git apply $M/patch.diff
-timeout 3000 cargo nextest run --workspace --no-fail-fast --test-threads 6 --offline > $M/confirm_suite.log 2>&1; C=$?
+timeout 3000 cargo nextest run --workspace --no-fail-fast --test-threads 6 --retries 2 --offline > $M/confirm_suite.log 2>&1; C=$?
 echo "suite with change: exit $C ($(grep -E 'Summary' $M/confirm_suite.log | tail -1))" >> $OUT
 git checkout -q -- . ; git clean -fdq -e mutations -e target
 if [ $A -eq 0 ] && [ $B -ne 0 ] && [ $C -eq 0 ]; then echo "CONFIRMED" >> $OUT; else echo "NOT CONFIRMED" >> $OUT; fi
